@@ -135,6 +135,50 @@ Theorem C08_next_act_is_translated :
 Proof. exact next_act_is_translated. Qed.
 Print Assumptions C08_next_act_is_translated.
 
+
+(* ---- euler(): implicit polynomial joint damping ------------------------------------------------- *)
+(* the kernel _compute_damping_deriv (machine translation) stores the model's damping_deriv, i.e.
+   _poly_force_deriv with flg_odd = 1 (|v|) ... *)
+Theorem C08_compute_damping_deriv_is_kernel :
+  forall (w i : Z) (damp : Z -> Z -> R) (dpoly : Z -> Z -> list R) (qvel out : Z -> Z -> R)
+         (orc : nat -> Z) (n1 n2 : Z) (p0 p1 : R),
+    dpoly (Z.rem w n2) i = [p0; p1] ->
+    Gen.kforward.k__compute_damping_deriv w i damp dpoly qvel out orc n1 n2
+    = [mkW "deriv_out" [w; i] KSet (VS (damping_deriv (damp (Z.rem w n1) i) p0 p1 (qvel w i)))].
+Proof. exact compute_damping_deriv_is_kernel. Qed.
+Print Assumptions C08_compute_damping_deriv_is_kernel.
+
+(* ... and _euler_damp_qfrc adds timestep * deriv to entry rowadr + rownnz - 1 (the diagonal) of the cloned M *)
+Theorem C08_euler_damp_qfrc_is_kernel :
+  forall (w t : Z) (ts : Z -> R) (h : R) (rownnz rowadr : Z -> Z) (deriv M : Z -> Z -> R) (orc : nat -> Z) (nts : Z),
+    ts (Z.rem w nts) = h ->
+    let adr := (rowadr t + rownnz t - 1)%Z in
+    Gen.kforward.k__euler_damp_qfrc w t ts rownnz rowadr deriv M orc nts
+    = [mkW "M_integration_out" [w; adr] KSet (VS (M w adr + h * deriv w t))].
+Proof. exact euler_damp_qfrc_is_kernel. Qed.
+Print Assumptions C08_euler_damp_qfrc_is_kernel.
+
+(* the damper derivative for every velocity, negative included: d + 2 p0 |v| + 3 p1 v^2; it is even in v
+   and is the slope of the damper force v (d + p0 |v| + p1 v^2) on either side of 0 *)
+Theorem C08_damping_deriv_formula :
+  forall d p0 p1 v : R, damping_deriv d p0 p1 v = d + 2 * p0 * Rabs v + 3 * p1 * (v * v).
+Proof. exact damping_deriv_formula. Qed.
+Print Assumptions C08_damping_deriv_formula.
+Theorem C08_damping_deriv_even :
+  forall d p0 p1 v : R, damping_deriv d p0 p1 (- v) = damping_deriv d p0 p1 v.
+Proof. exact damping_deriv_even. Qed.
+Print Assumptions C08_damping_deriv_even.
+Theorem C08_damping_deriv_is_slope_neg :
+  forall d p0 p1 v : R, v < 0 ->
+    derivable_pt_lim (fun x => x * (d + p0 * (- x) + p1 * (x * x))) v (damping_deriv d p0 p1 v).
+Proof. exact damping_deriv_is_slope_neg. Qed.
+Print Assumptions C08_damping_deriv_is_slope_neg.
+Theorem C08_damping_deriv_is_slope_pos :
+  forall d p0 p1 v : R, 0 < v ->
+    derivable_pt_lim (fun x => x * (d + p0 * x + p1 * (x * x))) v (damping_deriv d p0 p1 v).
+Proof. exact damping_deriv_is_slope_pos. Qed.
+Print Assumptions C08_damping_deriv_is_slope_pos.
+
 (* ---- S tie: forward.py's host code has the stage order the model copies ---------------------- *)
 Local Open Scope string_scope.
 
